@@ -34,7 +34,14 @@ let c_file_opt = function None -> "err:too_small" | Some i -> c_iinfo i
 
 (* ---------- field generators ---------- *)
 (* unsigned k-bit field: half the time all bytes distinct and non-zero, else boundary-biased *)
-let fld r k : z = if rbool r then zz (rdistinct r k) else zz (ru r k)
+let fld0 r k : z = if rbool r then zz (rdistinct r k) else zz (ru r k)
+(* a stored field: mostly all-distinct-byte / random values, but also the boundary values 0, 1 and 2^k-1 (a field that is 0
+   while its neighbours are not is what a "skip when zero" shortcut needs to show; seeded change C18-3) *)
+let fld r k : z =
+  match rint r 8 with
+  | 0 -> zi 0
+  | 1 -> if rbool r then zi 1 else zz (ZA.sub (ZA.shift_left ZA.one k) ZA.one)
+  | _ -> fld0 r k
 let ams = [| BTree; Hash; GiST; GIN; SPGiST; BRIN |]
 let am_str = function BTree -> "btree" | Hash -> "hash" | GiST -> "gist" | GIN -> "gin" | SPGiST -> "spgist" | BRIN -> "brin"
 
